@@ -54,3 +54,18 @@ package keeper
 //@   ensures [C01] #c01-principal-untouched: result == nil ==> v1.AmountIn == v0.AmountIn && v1.AmountOut == v0.AmountOut && v1.Owner == v0.Owner && v1.AppId == v0.AppId && v1.ExtendedPairVaultID == v0.ExtendedPairVaultID && v1.ClosingFeeAccumulated == v0.ClosingFeeAccumulated && v1.Id == v0.Id
 //@   ensures [C01] #c01-no-coin-moves: forall a, d :: bal(a, d) == old(bal(a, d))
 //@   ensures [C01] #c01-frame-vaults: forall j :: j != vaultID ==> k.vault.GetVault(ctx, j) == old(k.vault.GetVault(ctx, j))
+
+// The reward data of one epoch: a deterministic function of the chain state (float pro-rata computation inside).
+//@ func (k Keeper) GetRewardDistributionData
+//@   property C19
+//@   pure
+
+// One epoch's distribution (C19): the reported total is exactly the sum of the calculated rewards that are sent out, and
+// it never exceeds the epoch's allocation - a calculated total above the allocation is an error and nothing is sent.
+//@ func (k Keeper) BeginRewardDistributions
+//@   property C19
+//@   let data = k.GetRewardDistributionData(ctx, gauge, coinToDistribute, epochCount, epochDuration).0
+//@   loop 0 invariant #total: totalDistributionCoinsCalculated.Amount == sum(rewardDistributionData.RewardCoin.Amount, 0, idx0) && 0 <= idx0 && idx0 <= len(rewardDistributionData)
+//@   ensures #c19-reported-is-calculated: result1 == nil ==> result0.Amount == sum(data.RewardCoin.Amount, 0, len(data))
+//@   ensures #c19-within-allocation: result1 == nil ==> result0.Amount <= coinToDistribute.Amount
+//@   ensures #c19-overallocation-sends-nothing: result1 != nil ==> result0.Amount == 0
